@@ -61,6 +61,7 @@ CHECKS = {
     "wf": "chk_wf",
     "read_sound": "chk_read_sound",
     "read_cover": "chk_read_cover",
+    "read_source": "chk_read_source",
     "gt_sound0": "chk_gt_sound 0",
     "gt_sound1": "chk_gt_sound 1",          # only to classify a failure of gt_sound0 (0-based position column)
     "gt_cover0": "chk_gt_cover 0",
@@ -160,7 +161,7 @@ def execute(ctx, spec, opts_list):
             in_vcf = G.parse_vcf(os.path.join(wd, "in.vcf"), False)
             out_vcf = G.parse_vcf(os.path.join(wd, f"out.{tag}.vcf"), True)
             inst_recs = [G.real_inst_recs(ins, wd, intern, f"{tag}.{j}") for j, ins in enumerate(insts)]
-            t = G.case_term(opt, in_vcf, out_vcf, insts, files, intern, sc.chroms, inst_recs)
+            t = G.case_term(opt, in_vcf, out_vcf, insts, files, intern, sc.chroms, inst_recs, read_file=sc.read_file)
             nent = {k: (None if v is None else len([x for x in v if x != "H"])) for k, v in files.items()}
             il = [interleaving(ins, es) for ins, es in zip(insts, inst_recs)]
             fams = {}
@@ -178,6 +179,14 @@ def execute(ctx, spec, opts_list):
                     "source_ids": len({r["source_id"] for i in insts for r in i["reads"]}),
                     "empty_instances": sum(1 for i in insts if not i["accessible_positions"]),
                     "readless_instances": sum(1 for i in insts if not i["reads"])}
+            meta["bam_layout"], meta["bam_samples"] = sc.bam_layout, sc.bam_samples
+            # listed reads that come from a file which is preceded by a file that does not contain their sample
+            late = 0
+            for e in (files["reads"] or []):
+                if e != "H" and e[1] > 0:
+                    sname = next(k for k, v in intern.ids.items() if v == e[2])
+                    late += any(sname not in sc.bam_samples[j] for j in range(e[1]))
+            meta["read_entries_after_file_lacking_their_sample"] = late
             meta["coinciding"] = coinciding_positions(insts)
             three = [i for i in insts if len(i["trios"]) == 2 and
                      (i["trios"][0][0] in i["trios"][1][1:] or i["trios"][1][0] in i["trios"][0][1:])]
@@ -335,7 +344,7 @@ def evaluate(ctx, results):
         ctx.tally("option.algorithm." + opt.get("algorithm", "whatshap"))
         ctx.tally(f"option.max_coverage.{opt.get('max_coverage', 15)}")
         ctx.tally(f"option.recombrate.{opt['recombrate']}" if opt["ped"] and not opt["genmap"] else "option.recombrate.n/a")
-        for key in ("gl", "odd_records", "gap", "ped_shuffle", "ped_extra", "two_bams", "shared_read_names", "prephased",
+        for key in ("gl", "odd_records", "gap", "ped_shuffle", "ped_extra", "shared_read_names", "prephased",
                     "missing_gt", "interleave", "same_coords"):
             if spec.get(key):
                 ctx.tally("input." + key)
@@ -367,6 +376,11 @@ def evaluate(ctx, results):
                 ctx.tally(name)
                 if opt["reads"]:
                     ctx.tally(name + ".read_list_requested")
+        ctx.tally("bam_layout." + meta["bam_layout"])
+        ctx.tally(f"bam_files.{len(meta['bam_samples'])}")
+        ctx.tally("read_entries_after_file_lacking_their_sample", meta["read_entries_after_file_lacking_their_sample"])
+        if meta["read_entries_after_file_lacking_their_sample"]:
+            ctx.tally("runs_listing_reads_after_file_lacking_their_sample")
         if meta["source_ids"] > 1:
             ctx.tally("runs_with_two_source_ids")
         desc = f"spec={spec} options={opt} (instances: {meta['instances']}, entries in files: {meta['entries']})"
@@ -376,6 +390,10 @@ def evaluate(ctx, results):
         if not holds("read_sound", i):
             ctx.violation("phase:read-list-entry-unjustified",
                           "a line of the read list is not a selected read with phase set = component of its first variant + 1: " + desc, rp)
+        if not holds("read_source", i):
+            ctx.violation("phase:read-list-wrong-source-id",
+                          "a line of the read list names another input file (source_id = index on the command line) than the "
+                          "one the read was written to: " + desc + f" BAM layout: {meta['bam_layout']} {meta['bam_samples']}", rp)
         if not holds("read_cover", i):
             ctx.violation("phase:read-list-incomplete", "the read list is not exactly the selected reads of all processed chromosomes and families: " + desc, rp)
         if not holds("no_change", i):
